@@ -876,3 +876,37 @@ Theorem min_max_dispatch : forall c e s r,
   b_min (VNum c e :: r) = min_num (c, e) r /\ b_min (VStr s :: r) = min_str s r /\
   b_max false (VNull :: r) = VNull /\ b_min (VNull :: r) = VNull /\ b_max false (VBool true :: r) = VNull /\ b_min (VBool true :: r) = VNull.
 Proof. intros. repeat split; reflexivity. Qed.
+
+(* ---- mode: every result is an item of the list (partial characterisation) ---- *)
+Lemma runs_members : forall (L : list (Z * Z)) l acc,
+  (forall r, In r acc -> In (snd r) L) -> (forall x, In x l -> In x L) ->
+  forall r, In r (runs l acc) -> In (snd r) L.
+Proof.
+  intros L. induction l as [|x l IH]; intros acc Hacc Hl r Hr; cbn [runs] in Hr.
+  - apply Hacc. apply in_rev. exact Hr.
+  - destruct acc as [|[n v] acc'].
+    + apply (IH [(1%nat, x)]); auto.
+      * intros r0 [<-|[]]. cbn. apply Hl. left. reflexivity.
+      * intros y Hy. apply Hl. right. exact Hy.
+    + destruct (is_eq (ncmp (fst x) (snd x) (fst v) (snd v))).
+      * apply (IH ((S n, v) :: acc')); auto.
+        -- intros r0 [<-|H0]; [apply (Hacc (n, v)); left; reflexivity|apply Hacc; right; exact H0].
+        -- intros y Hy. apply Hl. right. exact Hy.
+      * apply (IH ((1%nat, x) :: (n, v) :: acc')); auto.
+        -- intros r0 [<-|H0]; [cbn; apply Hl; left; reflexivity|apply Hacc; exact H0].
+        -- intros y Hy. apply Hl. right. exact Hy.
+Qed.
+
+Theorem mode_members_partial : forall n ns, exists rs,
+  b_mode (map vnum (n :: ns)) = VList (map vnum rs) /\ (forall r, In r rs -> In r (n :: ns)).
+Proof.
+  intros n ns. unfold b_mode. rewrite numbers_of_map.
+  set (rs := runs (nsort (n :: ns)) []).
+  set (mx := fold_left (fun m r => Nat.max m (fst r)) rs O).
+  exists (map snd (filter (fun r => Nat.eqb (fst r) mx) rs)). split.
+  - destruct n. cbn [map]. rewrite map_map. reflexivity.
+  - intros r Hr. apply in_map_iff in Hr. destruct Hr as [q [<- Hq]]. apply filter_In in Hq. destruct Hq as [Hq _].
+    apply (runs_members (n :: ns) (nsort (n :: ns)) []); auto.
+    + intros r0 [].
+    + intros x Hx. eapply Permutation_in; [apply nsort_perm|exact Hx].
+Qed.
